@@ -495,3 +495,32 @@ contract(
     modifies=["extra"],
     props=["C18", "C15"], runtime=False,
 )
+
+_SCW = "SUM(tweights * tarr) / SUM(tweights)"
+contract(
+    "esutil.stat.util.sigma_clip#weighted", runtime_name="esutil.stat.util.sigma_clip",
+    params=dict(arrin="arr[real]", weights="arr[real]", niter="nat", nsig="real", get_err="const:True", get_indices="const:True",
+                extra="obj:dict{}", verbose="const:False", silent="const:True"),
+    requires={"non-empty": "len(arrin) >= 1", "positive-weights": "all(weights[k] > 0 for k in range(0, len(weights)))"},
+    raises=[("ValueError", "len(weights) != len(arrin)", "iff")],
+    inline_calls=["esutil.stat.util._get_sigma_clip_subset", "esutil.stat.util._get_sigma_clip_stats"],
+    loops={"L0": dict(counter="i", inv={
+        "reported-indices-are-positions-of-the-input-in-increasing-order":
+            "1 <= len(indices) and len(indices) <= len(arr) and all(0 <= indices[k] and indices[k] < len(arr) for k in range(0, len(indices)))"
+            " and all(indices[a] < indices[b] for a in range(0, len(indices)) for b in range(a + 1, len(indices)))",
+        "current-subset-is-the-input-at-those-positions":
+            "len(tarr) == len(indices) and len(tweights) == len(indices) and nold == len(indices) and len(weights) == len(arr)"
+            " and all(tarr[k] == arr[indices[k]] and tweights[k] == weights[indices[k]] for k in range(0, len(indices)))",
+        "statistics-are-the-weighted-moments-of-the-current-subset":
+            "m == " + _SCW + " and s == sqrt(SUM(tweights * (tarr - " + _SCW + ") ** 2) / SUM(tweights))"
+            " and e == sqrt(SUM(tweights ** 2 * (tarr - " + _SCW + ") ** 2)) / SUM(tweights)",
+    })},
+    ret_post={"return#0": {
+        "weighted-mean-deviation-error-of-exactly-the-reported-subset":
+            "result[0] == " + _SCW + " and result[1] == sqrt(SUM(tweights * (tarr - " + _SCW + ") ** 2) / SUM(tweights))"
+            " and result[2] == sqrt(SUM(tweights ** 2 * (tarr - " + _SCW + ") ** 2)) / SUM(tweights)"
+            " and len(tarr) == len(result[3]) and all(tarr[k] == arrin[result[3][k]] and tweights[k] == weights[result[3][k]] for k in range(0, len(tarr)))",
+    }},
+    modifies=["extra"],
+    props=["C18", "C15"], runtime=False, timeout=20,
+)
